@@ -217,6 +217,26 @@ Proof.
     + lia.
 Qed.
 
+Lemma map_set_count k v acc : (length (map_set k v acc) <= S (length acc))%nat.
+Proof.
+  induction acc as [|[k' v'] acc IH]; cbn [map_set length]; [lia|]. destruct (eid_eqb k k'); cbn [length]; lia.
+Qed.
+
+Lemma head_bytes_len_mono m a b : a <= b -> (length (head_bytes m a) <= length (head_bytes m b))%nat.
+Proof.
+  intros H. unfold head_bytes.
+  destruct (a <? 24) eqn:A1; destruct (b <? 24) eqn:B1; try lia; cbn [length]; rewrite ?be_encode_length.
+  - reflexivity.
+  - destruct (b <? 256); cbn [length]; [lia|]. destruct (b <? 65536); cbn [length]; rewrite ?be_encode_length; [lia|].
+    destruct (b <? 4294967296); cbn [length]; rewrite ?be_encode_length; lia.
+  - destruct (a <? 256) eqn:A2; destruct (b <? 256) eqn:B2; try lia; cbn [length]; rewrite ?be_encode_length; try lia.
+    + destruct (b <? 65536); cbn [length]; rewrite ?be_encode_length; [lia|].
+      destruct (b <? 4294967296); cbn [length]; rewrite ?be_encode_length; lia.
+    + destruct (a <? 65536) eqn:A3; destruct (b <? 65536) eqn:B3; try lia; cbn [length]; rewrite ?be_encode_length; try lia.
+      * destruct (b <? 4294967296); cbn [length]; rewrite ?be_encode_length; lia.
+      * destruct (a <? 4294967296) eqn:A4; destruct (b <? 4294967296) eqn:B4; try lia; cbn [length]; rewrite ?be_encode_length; lia.
+Qed.
+
 Section PairsMin.
 Variable readv : list N -> res N.
 Variable encv : N -> list N.
@@ -227,18 +247,21 @@ Lemma dec_pairs_min : forall fuel n acc bs l r,
   bytes_ok bs = true -> dec_pairs fuel readv n acc bs = Ok l r ->
   pairs_rng acc = true -> keys_nodup acc = true ->
   pairs_rng l = true /\ keys_nodup l = true /\ bytes_ok r = true
-  /\ (length (enc_pairs_body encv l) + length r <= length (enc_pairs_body encv acc) + length bs)%nat.
+  /\ (length (enc_pairs_body encv l) + length r <= length (enc_pairs_body encv acc) + length bs)%nat
+  /\ nlen l <= nlen acc + n.
 Proof.
   induction fuel as [|fuel IH]; intros n acc bs l r Hb H Ha Hn; cbn [dec_pairs] in H.
-  - destruct (n =? 0); [|discriminate]. inversion H; subst. repeat split; try assumption. lia.
-  - destruct (n =? 0); [inversion H; subst; repeat split; try assumption; lia|].
+  - destruct (n =? 0); [|discriminate]. inversion H; subst. repeat split; try assumption; lia.
+  - destruct (n =? 0) eqn:En0; [inversion H; subst; repeat split; try assumption; lia|].
     destruct (dec_eid bs) as [k r1| |] eqn:E1; cbn [bind] in H; try discriminate.
     destruct (dec_eid_min bs k r1 Hb E1) as (Hk & Hb1 & Hl1).
     destruct (readv r1) as [v r2| |] eqn:E2; cbn [bind] in H; try discriminate.
     destruct (Hrd r1 v r2 Hb1 E2) as (Hv & Hb2 & Hl2).
     destruct (IH (n - 1) (map_set k v acc) r2 l r Hb2 H (map_set_rng k v acc Ha Hk Hv) (map_set_nodup k v acc Hn))
-      as (P1 & P2 & P3 & P4).
-    repeat split; try assumption. pose proof (map_set_len encv k v acc). lia.
+      as (P1 & P2 & P3 & P4 & P5).
+    repeat split; try assumption.
+    + pose proof (map_set_len encv k v acc). lia.
+    + pose proof (map_set_count k v acc). unfold nlen in *. lia.
 Qed.
 End PairsMin.
 
@@ -248,6 +271,22 @@ Proof. intros Hb H. exact (read_expect_min mUInt bs v r Hb H). Qed.
 Lemma read_f64_min bs v r : bytes_ok bs = true -> read_f64 bs = Ok v r ->
   u64_ok v = true /\ bytes_ok r = true /\ (length (enc_f64 v) + length r <= length bs)%nat.
 Proof. intros Hb H. exact (read_expect_min mSimple bs v r Hb H). Qed.
+
+Lemma head_bytes_pos m n : (1 <= length (head_bytes m n))%nat.
+Proof.
+  unfold head_bytes. destruct (n <? 24); [cbn [length]; lia|]. destruct (n <? 256); [cbn [length]; lia|].
+  destruct (n <? 65536); [cbn [length]; lia|]. destruct (n <? 4294967296); cbn [length]; lia.
+Qed.
+
+Lemma maplen_head_le encv (ps : list (eid * N)) n :
+  (length (head_bytes mMap (nlen ps)) <= length (head_bytes mMap n) + length (enc_pairs_body encv ps))%nat.
+Proof.
+  pose proof (head_bytes_pos mMap n) as H1. pose proof (enc_pairs_body_length encv ps) as H2.
+  pose proof (head_bytes_length_le mMap (nlen ps)) as H3.
+  destruct (nlen ps <? 24) eqn:E.
+  - unfold head_bytes at 1. rewrite E. cbn [length]. lia.
+  - unfold nlen in E. lia.
+Qed.
 
 (* ---- extension block values ---- *)
 Definition ext_rng (v : ext) : bool :=
@@ -295,7 +334,7 @@ Proof.
     assert (1 <= length (head_bytes mBytes (nlen data)))%nat by (unfold head_bytes; destruct (nlen data <? 24); [cbn; lia|]; destruct (nlen data <? 256); [cbn; lia|]; destruct (nlen data <? 65536); [cbn; lia|]; destruct (nlen data <? 4294967296); cbn; lia).
     lia. }
   (* every branch: the re-encoding is no longer than data *)
-  assert (Hgoal : forall v0 r0, ext_rng v0 = true -> (length (inner_of v0) + length r0 <= length data)%nat ->
+  assert (Hgoal : forall v0 (r0 : list N), ext_rng v0 = true -> (length (inner_of v0) + length r0 <= length data)%nat ->
             Ok v0 rest = Ok v r -> ext_rng v = true /\ len_ok (inner_of v) = true /\ bytes_ok r = true /\ (length r < length bs)%nat).
   { intros v0 r0 Hr Hl Heq. inversion Heq; subst. repeat split; try assumption.
     eapply len_ok_le; [|exact Hld]. lia. }
@@ -333,36 +372,20 @@ Proof.
     destruct (read_maplen r3) as [n r4| |] eqn:E4; cbn [bind nobrk] in H; try discriminate.
     destruct (read_expect_min mMap r3 n r4 Hb3 E4) as (_ & Hb4 & Hl4).
     destruct (dec_pairs (S (length r4)) read_uint n [] r4) as [ps r5| |] eqn:E5; cbn [bind nobrk] in H; try discriminate.
-    destruct (dec_pairs_min read_uint enc_uint read_uint_min _ _ _ _ _ _ Hb4 E5 eq_refl eq_refl) as (P1 & P2 & P3 & P4).
+    destruct (dec_pairs_min read_uint enc_uint read_uint_min _ _ _ _ _ _ Hb4 E5 eq_refl eq_refl) as (P1 & P2 & P3 & P4 & P5).
     apply (Hgoal (XDtlsr id ts ps) r5); [cbn [ext_rng]; rewrite Hid, Hts, P1, P2; reflexivity| |exact H].
     cbn [inner_of]. rewrite !app_length. cbn [enc_pairs_body length] in P4.
     change (length (enc_arr 3)) with (length (head_bytes mArray 3)).
-    assert (Hml : (length (enc_maplen (nlen ps)) <= length (head_bytes mMap n) + length (enc_pairs_body enc_uint ps))%nat).
-    { unfold enc_maplen. pose proof (enc_pairs_body_length enc_uint ps) as Hpl.
-      pose proof (head_bytes_length_le mMap (nlen ps)). 
-      (* a count head is at most 9 bytes; when the decoded count needed a long head the pairs alone are longer *)
-      unfold head_bytes at 1. unfold nlen.
-      destruct (N.of_nat (length ps) <? 24) eqn:A1; [cbn [length]; pose proof (head_bytes_length_le mMap n); unfold head_bytes; destruct (n <? 24); cbn [length]; try lia; destruct (n <? 256); cbn [length]; try lia; destruct (n <? 65536); cbn [length]; rewrite ?be_encode_length; try lia; destruct (n <? 4294967296); cbn [length]; rewrite ?be_encode_length; lia|].
-      assert (1 <= length (head_bytes mMap n))%nat by (unfold head_bytes; destruct (n <? 24); [cbn; lia|]; destruct (n <? 256); [cbn; lia|]; destruct (n <? 65536); [cbn; lia|]; destruct (n <? 4294967296); cbn; lia).
-      destruct (N.of_nat (length ps) <? 256); [cbn [length]; lia|].
-      destruct (N.of_nat (length ps) <? 65536); [cbn [length]; rewrite be_encode_length; lia|].
-      destruct (N.of_nat (length ps) <? 4294967296); cbn [length]; rewrite be_encode_length; lia. }
-    unfold enc_uint in *. lia. }
+    assert (Hml : (length (enc_maplen (nlen ps)) <= length (head_bytes mMap n))%nat) by (apply head_bytes_len_mono; cbn in P5; lia).
+    unfold enc_uint in *. clear - Hl1 Hl2 Hl3 Hl4 P4 Hml. lia. }
   destruct (tc =? 194) eqn:T194.
   { destruct (read_maplen data) as [n r4| |] eqn:E4; cbn [bind nobrk] in H; try discriminate.
     destruct (read_expect_min mMap data n r4 Hbd E4) as (_ & Hb4 & Hl4).
     destruct (dec_pairs (S (length r4)) read_f64 n [] r4) as [ps r5| |] eqn:E5; cbn [bind nobrk] in H; try discriminate.
-    destruct (dec_pairs_min read_f64 enc_f64 read_f64_min _ _ _ _ _ _ Hb4 E5 eq_refl eq_refl) as (P1 & P2 & P3 & P4).
+    destruct (dec_pairs_min read_f64 enc_f64 read_f64_min _ _ _ _ _ _ Hb4 E5 eq_refl eq_refl) as (P1 & P2 & P3 & P4 & P5).
     apply (Hgoal (XProphet ps) r5); [cbn [ext_rng]; rewrite P1, P2; reflexivity| |exact H].
     cbn [inner_of]. rewrite !app_length. cbn [enc_pairs_body length] in P4.
-    assert (Hml : (length (enc_maplen (nlen ps)) <= length (head_bytes mMap n) + length (enc_pairs_body enc_f64 ps))%nat).
-    { unfold enc_maplen. pose proof (enc_pairs_body_length enc_f64 ps) as Hpl.
-      unfold head_bytes at 1. unfold nlen.
-      assert (1 <= length (head_bytes mMap n))%nat by (unfold head_bytes; destruct (n <? 24); [cbn; lia|]; destruct (n <? 256); [cbn; lia|]; destruct (n <? 65536); [cbn; lia|]; destruct (n <? 4294967296); cbn; lia).
-      destruct (N.of_nat (length ps) <? 24); [cbn [length]; lia|].
-      destruct (N.of_nat (length ps) <? 256); [cbn [length]; lia|].
-      destruct (N.of_nat (length ps) <? 65536); [cbn [length]; rewrite be_encode_length; lia|].
-      destruct (N.of_nat (length ps) <? 4294967296); cbn [length]; rewrite be_encode_length; lia. }
+    assert (Hml : (length (enc_maplen (nlen ps)) <= length (head_bytes mMap n))%nat) by (apply head_bytes_len_mono; cbn in P5; lia).
     lia. }
   destruct (tc =? 195) eqn:T195.
   { destruct (read_arr data) as [l r1| |] eqn:E1; cbn [bind nobrk] in H; try discriminate.
@@ -377,4 +400,181 @@ Proof.
   cbn [nobrk] in H.
   apply (Hgoal (XGeneric tc data) []); [|cbn; lia|exact H].
   cbn [ext_rng]. rewrite Hbd, andb_true_r, Htc. unfold known_type. rewrite T1, T6, T7, T10, T192, T193, T194, T195. reflexivity.
+Qed.
+
+(* ---- blocks ---- *)
+Lemma check_crc_ok_rest t bs r0 r' : bytes_ok r0 = true -> check_crc t bs r0 = Ok tt r' -> bytes_ok r' = true.
+Proof.
+  unfold check_crc. intros Hb H. destruct (read_bstr r0) as [cv r1| |] eqn:E; cbn [bind] in H; try discriminate.
+  destruct (read_bstr_min r0 cv r1 Hb E) as (_ & _ & Hr & _).
+  destruct (crc_len t); [|discriminate]. destruct (negb _); [discriminate|].
+  match type of H with (if ?c then _ else _) = _ => destruct c; [|discriminate] end. inversion H; subst. exact Hr.
+Qed.
+
+Definition cblock_rng (c : cblock) : bool :=
+  u64_ok (c_num c) && u64_ok (c_flags c) && crc_type_ok (c_crc c) && ext_rng (c_val c) && len_ok (inner_of (c_val c)).
+
+Lemma dec_cblock_rng bs c r : bytes_ok bs = true -> dec_cblock bs = Ok c r -> cblock_rng c = true /\ bytes_ok r = true.
+Proof.
+  intros Hb H. unfold dec_cblock in H.
+  destruct (read_arr bs) as [l r0| |] eqn:E0; cbn [bind] in H; try discriminate.
+  destruct (read_expect_min mArray bs l r0 Hb E0) as (_ & Hb0 & _).
+  destruct (negb ((l =? 5) || (l =? 6))); [discriminate|].
+  destruct (read_uint r0) as [tc r1| |] eqn:E1; cbn [bind] in H; try discriminate.
+  destruct (read_uint_min r0 tc r1 Hb0 E1) as (Htc & Hb1 & _).
+  destruct (read_uint r1) as [num r2| |] eqn:E2; cbn [bind] in H; try discriminate.
+  destruct (read_uint_min r1 num r2 Hb1 E2) as (Hnum & Hb2 & _).
+  destruct (read_uint r2) as [fl r3| |] eqn:E3; cbn [bind] in H; try discriminate.
+  destruct (read_uint_min r2 fl r3 Hb2 E3) as (Hfl & Hb3 & _).
+  destruct (read_uint r3) as [crc r4| |] eqn:E4; cbn [bind] in H; try discriminate.
+  destruct (read_uint_min r3 crc r4 Hb3 E4) as (_ & Hb4 & _).
+  destruct (2 <? crc) eqn:Ecrc; [discriminate|].
+  destruct (negb (Bool.eqb (l =? 6) (negb (crc =? 0)))); [discriminate|].
+  destruct (dec_ext tc r4) as [v r5| |] eqn:E5; cbn [bind] in H; try discriminate.
+  destruct (dec_ext_min tc r4 v r5 Htc Hb4 E5) as (Hv & Hlen & Hb5 & _).
+  assert (Hrng : cblock_rng {| c_num := num; c_flags := fl; c_crc := crc; c_val := v |} = true).
+  { unfold cblock_rng, crc_type_ok. cbn [c_num c_flags c_crc c_val]. rewrite Hnum, Hfl, Hv, Hlen.
+    replace (crc <=? 2) with true by (clear - Ecrc; lia). reflexivity. }
+  destruct (l =? 6).
+  - destruct (check_crc crc bs r5) as [u r6| |] eqn:E6; cbn [bind] in H; try discriminate. destruct u.
+    inversion H; subst. split; [exact Hrng|]. eapply check_crc_ok_rest; eauto.
+  - inversion H; subst. split; [exact Hrng|exact Hb5].
+Qed.
+
+Lemma cblock_rng_valid_wf c : cblock_rng c = true -> cblock_valid c = true -> cblock_wf c = true.
+Proof.
+  unfold cblock_rng, cblock_valid, cblock_wf. intros H1 H2.
+  apply andb_prop in H1. destruct H1 as [H1 Hlen]. apply andb_prop in H1. destruct H1 as [H1 Hrng].
+  apply andb_prop in H1. destruct H1 as [H1 Hcrc]. apply andb_prop in H1. destruct H1 as [Hnum Hfl].
+  apply andb_prop in H2. destruct H2 as [Hv _].
+  assert (Hwf : ext_wf (c_val c) = true) by (apply ext_rng_valid_wf; assumption).
+  rewrite (enc_ext_inner_ok _ Hwf), Hnum, Hfl, Hcrc, Hwf, Hlen. reflexivity.
+Qed.
+
+Lemma dec_blocks_rng : forall fuel bs acc bl rest,
+  bytes_ok bs = true -> forallb cblock_rng acc = true ->
+  dec_blocks fuel bs acc = Some (bl, rest) -> forallb cblock_rng bl = true.
+Proof.
+  induction fuel as [|fuel IH]; intros bs acc bl rest Hb Ha H; cbn [dec_blocks] in H; [discriminate|].
+  destruct (starts_with 255 bs); [inversion H; subst; exact Ha|].
+  destruct (dec_cblock bs) as [c r| |] eqn:E.
+  - destruct (dec_cblock_rng bs c r Hb E) as [Hc Hr].
+    apply (IH r (acc ++ [c]) bl rest Hr); [|exact H]. rewrite forallb_app, Ha. cbn. rewrite Hc. reflexivity.
+  - inversion H; subst. exact Ha.
+  - discriminate.
+Qed.
+
+(* ---- primary block ---- *)
+Definition primary_rng (p : primary) : bool :=
+  u64_ok (p_flags p) && crc_type_ok (p_crc p) && eid_wf (p_dst p) && eid_wf (p_src p) && eid_wf (p_rpt p)
+  && u64_ok (p_time p) && u64_ok (p_seq p) && u64_ok (p_life p) && u64_ok (p_off p) && u64_ok (p_total p).
+
+Lemma dec_primary_rng bs p r : bytes_ok bs = true -> dec_primary bs = Ok p r -> primary_rng p = true /\ bytes_ok r = true.
+Proof.
+  intros Hb H. unfold dec_primary in H.
+  destruct (read_arr bs) as [l r0| |] eqn:E0; cbn [bind] in H; try discriminate.
+  destruct (read_expect_min mArray bs l r0 Hb E0) as (_ & Hb0 & _).
+  destruct (negb ((8 <=? l) && (l <=? 11))); [discriminate|].
+  destruct (read_uint r0) as [ver r1| |] eqn:E1; cbn [bind] in H; try discriminate.
+  destruct (read_uint_min r0 ver r1 Hb0 E1) as (_ & Hb1 & _).
+  destruct (negb (ver =? 7)); [discriminate|].
+  destruct (read_uint r1) as [fl r2| |] eqn:E2; cbn [bind] in H; try discriminate.
+  destruct (read_uint_min r1 fl r2 Hb1 E2) as (Hfl & Hb2 & _).
+  destruct (read_uint r2) as [crc r3| |] eqn:E3; cbn [bind] in H; try discriminate.
+  destruct (read_uint_min r2 crc r3 Hb2 E3) as (_ & Hb3 & _).
+  destruct (2 <? crc) eqn:Ecrc; [discriminate|].
+  destruct (negb (Bool.eqb ((l =? 9) || (l =? 11)) (negb (crc =? 0)))); [discriminate|].
+  destruct (dec_eid r3) as [dst r4| |] eqn:E4; cbn [bind] in H; try discriminate.
+  destruct (dec_eid_min r3 dst r4 Hb3 E4) as (Hdst & Hb4 & _).
+  destruct (dec_eid r4) as [src r5| |] eqn:E5; cbn [bind] in H; try discriminate.
+  destruct (dec_eid_min r4 src r5 Hb4 E5) as (Hsrc & Hb5 & _).
+  destruct (dec_eid r5) as [rpt r6| |] eqn:E6; cbn [bind] in H; try discriminate.
+  destruct (dec_eid_min r5 rpt r6 Hb5 E6) as (Hrpt & Hb6 & _).
+  destruct (read_arr r6) as [l2 r7| |] eqn:E7; cbn [bind] in H; try discriminate.
+  destruct (read_expect_min mArray r6 l2 r7 Hb6 E7) as (_ & Hb7 & _).
+  destruct (negb (l2 =? 2)); [discriminate|].
+  destruct (read_uint r7) as [tm r8| |] eqn:E8; cbn [bind] in H; try discriminate.
+  destruct (read_uint_min r7 tm r8 Hb7 E8) as (Htm & Hb8 & _).
+  destruct (read_uint r8) as [sq r9| |] eqn:E9; cbn [bind] in H; try discriminate.
+  destruct (read_uint_min r8 sq r9 Hb8 E9) as (Hsq & Hb9 & _).
+  destruct (read_uint r9) as [life r10| |] eqn:E10; cbn [bind] in H; try discriminate.
+  destruct (read_uint_min r9 life r10 Hb9 E10) as (Hlife & Hb10 & _).
+  match type of H with bind ?x _ = _ => destruct x as [[off tot] r11| |] eqn:E11; cbn [bind] in H; try discriminate end.
+  assert (Hot : u64_ok off = true /\ u64_ok tot = true /\ bytes_ok r11 = true).
+  { destruct ((l =? 10) || (l =? 11)).
+    - destruct (read_uint r10) as [o1 ra| |] eqn:Ea; cbn [bind] in E11; try discriminate.
+      destruct (read_uint_min r10 o1 ra Hb10 Ea) as (Ho & Hba & _).
+      destruct (read_uint ra) as [t1 rb| |] eqn:Eb; cbn [bind] in E11; try discriminate.
+      destruct (read_uint_min ra t1 rb Hba Eb) as (Ht & Hbb & _). inversion E11; subst. tauto.
+    - inversion E11; subst. repeat split; try reflexivity. exact Hb10. }
+  destruct Hot as (Hoff & Htot & Hb11). cbn [fst snd] in H.
+  assert (Hrng : primary_rng {| p_flags := fl; p_crc := crc; p_dst := dst; p_src := src; p_rpt := rpt;
+                                p_time := tm; p_seq := sq; p_life := life; p_off := off; p_total := tot |} = true).
+  { unfold primary_rng, crc_type_ok. cbn [p_flags p_crc p_dst p_src p_rpt p_time p_seq p_life p_off p_total].
+    rewrite Hfl, Hdst, Hsrc, Hrpt, Htm, Hsq, Hlife, Hoff, Htot. replace (crc <=? 2) with true by (clear - Ecrc; lia). reflexivity. }
+  destruct ((l =? 9) || (l =? 11)).
+  - destruct (check_crc crc bs r11) as [u r12| |] eqn:E12; cbn [bind] in H; try discriminate. destruct u.
+    inversion H; subst. split; [exact Hrng|]. eapply check_crc_ok_rest; eauto.
+  - inversion H; subst. split; [exact Hrng|exact Hb11].
+Qed.
+
+(* the serialiser ignores offset / total length of a bundle without the fragment flag *)
+Definition norm_primary (p : primary) : primary :=
+  if has (p_flags p) F_FRAG then p
+  else {| p_flags := p_flags p; p_crc := p_crc p; p_dst := p_dst p; p_src := p_src p; p_rpt := p_rpt p;
+          p_time := p_time p; p_seq := p_seq p; p_life := p_life p; p_off := 0; p_total := 0 |}.
+Definition norm_bundle (b : bundle) : bundle := {| b_pri := norm_primary (b_pri b); b_blocks := b_blocks b |}.
+
+Lemma primary_rng_valid_wf p : primary_rng p = true -> primary_valid p = true -> primary_wf (norm_primary p) = true.
+Proof.
+  unfold primary_rng, primary_valid, primary_wf, norm_primary. intros H1 H2.
+  repeat (apply andb_prop in H1; destruct H1 as [H1 ?]).
+  repeat (apply andb_prop in H2; destruct H2 as [H2 ?]).
+  unfold eid_ok.
+  destruct (has (p_flags p) F_FRAG) eqn:Ef; cbn [p_flags p_crc p_dst p_src p_rpt p_time p_seq p_life p_off p_total];
+    rewrite ?Ef;
+    repeat (apply andb_true_intro; split); try assumption; try reflexivity.
+Qed.
+
+Lemma norm_enc_primary p : enc_primary (norm_primary p) = enc_primary p.
+Proof.
+  unfold norm_primary. destruct (has (p_flags p) F_FRAG) eqn:Ef; [reflexivity|].
+  unfold enc_primary. cbn [p_flags p_crc p_dst p_src p_rpt p_time p_seq p_life p_off p_total]. rewrite Ef. reflexivity.
+Qed.
+
+Lemma norm_check_valid now b : check_valid now (norm_bundle b) = check_valid now b.
+Proof.
+  unfold norm_bundle, norm_primary. destruct b as [p bl]. cbn [b_pri b_blocks].
+  destruct (has (p_flags p) F_FRAG); reflexivity.
+Qed.
+
+Lemma norm_id_str b : id_str (norm_bundle b) = id_str b.
+Proof.
+  destruct b as [p bl]. unfold norm_bundle, norm_primary, id_str. cbn [b_pri b_blocks].
+  destruct (has (p_flags p) F_FRAG) eqn:Ef.
+  - rewrite Ef. reflexivity.
+  - cbn [p_flags p_src p_time p_seq p_off p_total]. rewrite Ef. reflexivity.
+Qed.
+
+(* ---- the bundle ---- *)
+Theorem decoded_bundle_wf now bs b rest :
+  bytes_ok bs = true -> dec_bundle now bs = Some (b, rest) -> bundle_wf (norm_bundle b) = true.
+Proof.
+  intros Hb H. unfold dec_bundle in H. destruct (starts_with 159 bs) eqn:Es; [|discriminate].
+  assert (Htl : bytes_ok (tl bs) = true).
+  { destruct bs as [|x bs]; [reflexivity|]. unfold bytes_ok in *. cbn [forallb tl] in *. apply andb_prop in Hb. tauto. }
+  destruct (dec_primary (tl bs)) as [p r1| |] eqn:Ep; cbn [nobrk] in H; try discriminate.
+  destruct (dec_primary_rng (tl bs) p r1 Htl Ep) as [Hp Hr1].
+  destruct (dec_blocks (S (length r1)) r1 []) as [[bl rest']|] eqn:Ebl; [|discriminate].
+  pose proof (dec_blocks_rng (S (length r1)) r1 [] bl rest' Hr1 (eq_refl : forallb cblock_rng [] = true) Ebl) as Hbl.
+  destruct (check_valid now {| b_pri := p; b_blocks := bl |}) eqn:Ev; [|discriminate].
+  inversion H; subst b rest'. clear H.
+  assert (Hpv : primary_valid p = true /\ forallb cblock_valid bl = true).
+  { unfold check_valid in Ev. cbn [b_pri b_blocks] in Ev.
+    do 7 (apply andb_prop in Ev; destruct Ev as [Ev _]). apply andb_prop in Ev. exact Ev. }
+  destruct Hpv as [Hpv Hcv].
+  unfold bundle_wf, norm_bundle. cbn [b_pri b_blocks].
+  apply andb_true_intro. split.
+  - apply primary_rng_valid_wf; assumption.
+  - rewrite forallb_forall in *. intros c Hc. apply cblock_rng_valid_wf; [apply Hbl, Hc|apply Hcv, Hc].
 Qed.
